@@ -97,13 +97,13 @@ CHECKS.update({
     "C11": {"technique": "explicit TLA+ model of the send path at shared-access granularity (spec/Threads.tla) checked by TLC over all interleavings (repaired variant satisfies the invariants, as-found variant violates them); on the code side a deterministic line-granular scheduler enumerates all schedules of real threads up to a pre-emption bound; each recorded execution judged by the TLA+ monitor Mon_C11 evaluated by TLC",
             "level_text": "TLC explores every interleaving of the Threads.tla model (write lock, compress lock, closing flag, two-step sendall) for three thread programs. Because a model's schedules cannot reveal a missing "
                           "lock in the code, schedules are explored on the code: real threads running the real send path under sys.settrace, one at a time, with hand-over possible at every source line inside lomond/, at "
-                          "contended locks and between the two halves of every sendall; all schedules with <= 1 (quick) / 2 (thorough) pre-emptions of 5 thread programs are executed (plus 20000 random opcode-granular "
+                          "contended locks and between the two halves of every sendall; all schedules with <= 1 (quick) / 2 (thorough) pre-emptions of 5 thread programs are executed (plus 6000 random opcode-granular "
                           "schedules in the thorough tier); the wire is decoded by the independent decoder (compressed messages inflated in wire order by a context-takeover peer) and Mon_C11 (TLC) judges every distinct recorded execution.",
             "level_note": _NOTE + "C-level atomicity of zlib objects and of one sendall half is assumed; the loop thread is represented by the calls it makes (_send_pong, _check_auto_ping, _on_close)."},
     "C12": {"technique": "explicit TLA+ model of the send path at shared-access granularity (spec/Threads.tla) checked by TLC over all interleavings (repaired variant satisfies the invariants, as-found variant violates them); on the code side a deterministic line-granular scheduler enumerates all schedules of real threads up to a pre-emption bound; each recorded execution judged by the TLA+ monitor Mon_C12 evaluated by TLC",
             "level_text": "TLC explores every interleaving of the Threads.tla model (write lock, compress lock, closing flag, two-step sendall) for three thread programs. Because a model's schedules cannot reveal a missing "
                           "lock in the code, schedules are explored on the code: real threads running the real send path under sys.settrace, one at a time, with hand-over possible at every source line inside lomond/, at "
-                          "contended locks and between the two halves of every sendall; all schedules with <= 1 (quick) / 2 (thorough) pre-emptions of 5 thread programs are executed (plus 20000 random opcode-granular "
+                          "contended locks and between the two halves of every sendall; all schedules with <= 1 (quick) / 2 (thorough) pre-emptions of 5 thread programs are executed (plus 6000 random opcode-granular "
                           "schedules in the thorough tier); the wire is decoded by the independent decoder (compressed messages inflated in wire order by a context-takeover peer) and Mon_C12 (TLC) judges every distinct recorded execution.",
             "level_note": _NOTE + "C-level atomicity of zlib objects and of one sendall half is assumed; the loop thread is represented by the calls it makes (_send_pong, _check_auto_ping, _on_close)."},
     "C14": _sess("Mon_C14", "pongs = answerable pings (payload, order, multiplicity), each written before its Ping event; none with auto_pong off; failing pong writes do not disturb the event stream (twin run)",
